@@ -66,14 +66,18 @@ def run (o : Options) (ps : List (ParentV × List Int)) (hs : List (Nat × List 
       " ".intercalate (["|", s!"P{i}", "C"] ++ kids ++ ["U"] ++ (r.updates.getD i []).map showU))
     " ".intercalate ("ok" :: parts)
 
+def handleAnn (thr ii im fm : String) (rest : List String) : String :=
+  let (p, h) := split rest
+  match thr.toInt?, fm.toNat?, p.mapM parseParent, h.mapM parseHist with
+  | some thr, some fm, some ps, some hs =>
+    run { threshold := thr, ignoreInconsistency := ii = "1", ignoreMissing := im = "1", filterMod := fm } ps hs
+  | _, _, _, _ => "bad-op"
+
 def handle (toks : List String) : String :=
   match toks with
-  | "ann" :: _kind :: thr :: ii :: im :: fm :: rest =>
-    let (p, h) := split rest
-    match thr.toInt?, fm.toNat?, p.mapM parseParent, h.mapM parseHist with
-    | some thr, some fm, some ps, some hs =>
-      run { threshold := thr, ignoreInconsistency := ii = "1", ignoreMissing := im = "1", filterMod := fm } ps hs
-    | _, _, _, _ => "bad-op"
+  | "ann" :: _kind :: thr :: ii :: im :: fm :: rest => handleAnn thr ii im fm rest
+  -- `anns`: a history whose time stamps do not follow its version numbers (clock skew); the same computation
+  | "anns" :: _kind :: thr :: ii :: im :: fm :: rest => handleAnn thr ii im fm rest
   | _ => "bad-op"
 
 end OsmVerif.Oracle.C11
